@@ -41,6 +41,31 @@
 (*           styles (one slice per position; characters come from the table    *)
 (*           XML_BYTES, see XmlDoc).                                           *)
 (*                                                                             *)
+(*  "names"  EVERY byte value 0x21..0xFF as first and as last character of an   *)
+(*           element name and of an attribute name: inside the subset iff it   *)
+(*           is a name(-start) character (NameLaw), tree or ending only.       *)
+(*  "ctl"    every control byte (0x00..0x1F but tab, LF, CR) first / last in    *)
+(*           content, attribute value, comment and name: outside the subset    *)
+(*           (CtlLaw), the ending only.                                        *)
+(*  "big"    documents DEFINED BY FORMULA, never built by TLC at full size:     *)
+(*           a name / value / content / comment / blank run of n characters,   *)
+(*           n attributes, n children, files of exactly n bytes, chains n      *)
+(*           deep, for n at the boundaries 0 1 2 127..129 255..257 511..513    *)
+(*           1023..1025 4095..4097 8191..8193 65535..65537 1048575..1048577.   *)
+(*           The driver builds the same document and reports the returned tree *)
+(*           with runs compressed (ctree); the expected ctree is a formula     *)
+(*           too.  BigLaw: for every n <= 9 the formula document parses to a   *)
+(*           tree whose compression is the formula ctree, and its length is    *)
+(*           the formula length (the small documents also travel as text, so   *)
+(*           that the driver's builder is compared with the specification's).  *)
+(*  "history" what a call returns is a function of the file's bytes alone:     *)
+(*           ALL sequences of up to 3 files from a pool of 8 (empty, tiny,     *)
+(*           long, malformed, long garbage, blank, short, unterminated value)  *)
+(*           read one after the other in a fresh process: trees for the        *)
+(*           documents of the subset, SafeOutcomes for the others, and equal   *)
+(*           observations for equal files whatever was read before             *)
+(*           ("ReadSeq"); the same files on 4 threads at once ("ReadThreads"). *)
+(*                                                                             *)
 (* Laws:                                                                       *)
 (*   ByteLaw     a document of the "bytes" family parses to exactly that        *)
 (*               content / value: no byte but space, tab, CR, LF is trimmed    *)
@@ -134,6 +159,8 @@ SliceSeq ==
   \o [i \in 1..3 |-> Sl("content", i, 0)]
   \o [i \in 1..6 |-> Sl("dashes", i, 0)]
   \o [i \in 1..7 |-> Sl("bytes", i, 0)]
+  \o [i \in 1..4 |-> Sl("names", i, 0)]
+  \o <<Sl("ctl", 0, 0), Sl("big", 0, 0), Sl("history", 0, 0)>>
   \o (IF SPLIT2 THEN [i \in 1..64 |-> Sl("short", 1 + (i - 1) \div 8, 1 + Md(i - 1, 8))] \o <<Sl("short", 0, 0)>>
       ELSE [i \in 1..8 |-> Sl("short", i, 0)] \o <<Sl("short", 0, 0)>>)                          \* (0, 0): the strings shorter than the prefix
 
@@ -144,24 +171,32 @@ PairsOf(sl) ==     \* the (tree, choices) pairs of a slice
   IF sl.fam = "styles" THEN {p \in CoreTrees \X {c \in ChoiceSpace : c.hdr = sl.x /\ c.cm = sl.y} : Relevant(p[1], p[2])}
   ELSE WithKids(Leaves({NameSeq[sl.x]}, {PropListSeq[sl.y]}, Contents), KidSet) \X Profiles
 
+\* the same with what the accessors of Node must say: getProp(n) = getProp(n, fallback) = the value, hasProp(n); for a name
+\* no generated tree uses: hasProp false, getProp "" and the fallback
+RECURSIVE TreeJG(_)
+TreeJG(t) == [name |-> Join(t.name), props |-> [i \in DOMAIN t.props |-> <<Join(t.props[i][1]), Join(t.props[i][2])>>],
+              content |-> Join(t.content), child |-> [i \in DOMAIN t.child |-> TreeJG(t.child[i])],
+              get |-> [i \in DOMAIN t.props |-> <<Join(t.props[i][2]), Join(t.props[i][2]), TRUE>>], absent |-> <<FALSE, "", "fb">>]
+
 RECURSIVE TreeJ(_)
 TreeJ(t) == [name |-> Join(t.name), props |-> [i \in DOMAIN t.props |-> <<Join(t.props[i][1]), Join(t.props[i][2])>>],
              content |-> Join(t.content), child |-> [i \in DOMAIN t.child |-> TreeJ(t.child[i])]]
 
 HasEndTag(t, c) == \E x \in Nodes(t) : ~(IsBare(x) /\ c.selfc)
-Eval(t, c) ==
+Eval(t, c, acc) ==          \* acc: the case also states what the accessors return
   LET d == Render(t, c)
       p == ParseDoc(d)
   IN [law |-> IsTree(t) /\ p = [ok |-> TRUE, tree |-> DocNode(<<t>>), ew |-> (c.we = 1 /\ HasEndTag(t, c))],
-      case |-> [a |-> "Read", arg |-> [doc |-> Join(d)], cls |-> DocClass(p, d), exp |-> [outcome |-> "ok", tree |-> TreeJ(DocNode(<<t>>))]]]
+      case |-> [a |-> "Read", arg |-> [doc |-> Join(d)], cls |-> DocClass(p, d),
+                exp |-> [outcome |-> "ok", tree |-> IF acc THEN TreeJG(DocNode(<<t>>)) ELSE TreeJ(DocNode(<<t>>))]]]
 
 \* (a value bound by \E x \in {e} is computed once; a LET definition may be re-evaluated at every use)
 RoundTripSlice(sl, file) ==
-  \E P \in {PairsOf(sl)} : \E Ev \in {{Eval(x[1], x[2]) : x \in P}} :
+  \E P \in {PairsOf(sl)} : \E Ev \in {{Eval(x[1], x[2], sl.fam = "trees") : x \in P}} :
      IF \A e \in Ev : e.law
      THEN ndJsonSerialize(file, SetToSeq({e.case : e \in Ev}))
           /\ PrintT(<<"xmlgen", sl, "pairs", Cardinality(P), "cases", Cardinality(Ev)>>)
-     ELSE LET b == CHOOSE x \in P : ~Eval(x[1], x[2]).law IN
+     ELSE LET b == CHOOSE x \in P : ~Eval(x[1], x[2], FALSE).law IN
           PrintT(<<"round trip fails", b, Join(Render(b[1], b[2])), ParseDoc(Render(b[1], b[2]))>>) /\ FALSE
 
 \* ---------------------------------------------------------------------------
@@ -299,13 +334,151 @@ ByteEval(pos, C) ==
   LET d == ByteDoc(pos, C)
       p == ParseDoc(d)
   IN [law |-> p = [ok |-> TRUE, tree |-> DocNode(<<ByteTree(pos, C)>>), ew |-> FALSE],
-      case |-> [a |-> "Read", arg |-> [doc |-> Join(d)], cls |-> DocClass(p, d), exp |-> [outcome |-> "ok", tree |-> TreeJ(DocNode(<<ByteTree(pos, C)>>))]]]
+      case |-> [a |-> "Read", arg |-> [doc |-> Join(d)], cls |-> DocClass(p, d), exp |-> [outcome |-> "ok", tree |-> IF pos \in {6, 7} THEN TreeJG(DocNode(<<ByteTree(pos, C)>>)) ELSE TreeJ(DocNode(<<ByteTree(pos, C)>>))]]]
 ByteSlice(sl, file) ==
   \E Ev \in {{ByteEval(sl.x, C) : C \in UNION {ByteConts(ChrOf(c)) : c \in ByteCodes(sl.x)}}} :
      IF TabOk /\ \A e \in Ev : e.law
      THEN ndJsonSerialize(file, SetToSeq({e.case : e \in Ev}))
           /\ PrintT(<<"xmlgen", sl, "byte values", Cardinality(ByteCodes(sl.x)), "documents", Cardinality(Ev)>>)
      ELSE PrintT(<<"byte law fails", sl, TabOk>>) /\ FALSE
+
+\* ---------------------------------------------------------------------------
+\* families "names" and "ctl": every byte value first / last in names; control bytes first / last in every field
+\* ---------------------------------------------------------------------------
+SafeCase(d) == [a |-> "ReadSafe", arg |-> [doc |-> Join(d)], cls |-> "", exp |-> [outcomes |-> SetToSeq(SafeOutcomes)]]
+TreeCase(p, d) == [a |-> "Read", arg |-> [doc |-> Join(d)], cls |-> DocClass(p, d), exp |-> [outcome |-> "ok", tree |-> TreeJ(p.tree)]]
+NameDoc(pos, b) ==
+  CASE pos = 1 -> <<"<", b, "x", "/", ">">>
+    [] pos = 2 -> <<"<", "x", b, "/", ">">>
+    [] pos = 3 -> <<"<", "a", " ", b, "x", "=", DQ, "v", DQ, "/", ">">>
+    [] pos = 4 -> <<"<", "a", " ", "x", b, "=", DQ, "v", DQ, "/", ">">>
+NameEval(pos, b) ==
+  LET d == NameDoc(pos, b)
+      p == ParseDoc(d)
+      nm == IF pos \in {1, 3} THEN <<b, "x">> ELSE <<"x", b>>
+  IN [law |-> /\ p.ok = (IF pos \in {1, 3} THEN b \in NameStart ELSE b \in NameChar)
+              /\ (p.ok => p.tree = DocNode(<<IF pos \in {1, 2} THEN Node(nm, <<>>, <<>>, <<>>)
+                                              ELSE Node(<<"a">>, << <<nm, <<"v">>>> >>, <<>>, <<>>)>>)),
+      case |-> IF p.ok THEN TreeCase(p, d) ELSE SafeCase(d)]
+NameSlice(sl, file) ==
+  \E Ev \in {{NameEval(sl.x, ChrOf(c)) : c \in 33..255}} :
+     IF TabOk /\ \A e \in Ev : e.law
+     THEN ndJsonSerialize(file, SetToSeq({e.case : e \in Ev}))
+          /\ PrintT(<<"xmlgen", sl, "byte values", 223, "inside the subset", Cardinality({e \in Ev : e.case.a = "Read"})>>)
+     ELSE PrintT(<<"name law fails", sl, CHOOSE c \in 33..255 : ~NameEval(sl.x, ChrOf(c)).law>>) /\ FALSE
+
+CtlChars == {ByteTab.ctlchars[i] : i \in DOMAIN ByteTab.ctlchars}
+CtlDocs(k) == {
+    Open("a") \o <<k, "x">> \o Close("a"), Open("a") \o <<"x", k>> \o Close("a"), Open("a") \o <<" ", k, " ">> \o Close("a"),
+    Open("a") \o El("b") \o <<k>> \o Close("a"), Open("a") \o <<k>> \o El("b") \o Close("a"),
+    <<"<", "a", " ", "q", "=", DQ, k, "x", DQ, "/", ">">>, <<"<", "a", " ", "q", "=", SQ, "x", k, SQ, "/", ">">>,
+    Cmt(<<k, "x">>) \o El("a"), Open("a") \o Cmt(<<"x", k>>) \o Close("a"),
+    <<"<", k, "x", "/", ">">>, <<"<", "x", k, "/", ">">>, <<"<", "a", " ", "x", k, "=", DQ, "v", DQ, "/", ">">>,
+    El("a") \o <<k>>, <<k>> \o El("a") }
+CtlSlice(file) ==
+  \E D \in {UNION {CtlDocs(k) : k \in CtlChars}} :
+     IF Cardinality(CtlChars) = 29 /\ CtlChars \cap AnyChar = {} /\ \A d \in D : ~ParseDoc(d).ok
+     THEN ndJsonSerialize(file, SetToSeq({SafeCase(d) : d \in D}))
+          /\ PrintT(<<"xmlgen", "ctl", "control bytes", Cardinality(CtlChars), "documents", Cardinality(D)>>)
+     ELSE PrintT(<<"ctl law fails", CHOOSE d \in D : ParseDoc(d).ok>>) /\ FALSE
+
+\* ---------------------------------------------------------------------------
+\* family "big": documents and expected trees defined by formula
+\* ---------------------------------------------------------------------------
+Rep(n, c) == [i \in 1..n |-> c]
+R(c, n) == IF n = 0 THEN <<>> ELSE << <<c, n>> >>                 \* a run in compressed form
+RECURSIVE Rle(_)
+Rle(q) == IF q = <<>> THEN <<>>
+          ELSE LET K == {k \in DOMAIN q : q[k] # q[1]}
+                   e == IF K = {} THEN Len(q) + 1 ELSE CHOOSE k \in K : \A j \in K : k <= j
+               IN << <<q[1], e - 1>> >> \o Rle(SubSeq(q, e, Len(q)))
+RECURSIVE CTree(_)
+CTree(t) == [name |-> Rle(t.name), props |-> [i \in DOMAIN t.props |-> <<Rle(t.props[i][1]), Rle(t.props[i][2])>>],
+             content |-> Rle(t.content), child |-> Rle([i \in DOMAIN t.child |-> CTree(t.child[i])])]
+CNode(n, ps, ct, ch) == [name |-> n, props |-> ps, content |-> ct, child |-> ch]
+CDoc(root) == CNode(<<>>, <<>>, <<>>, << <<root, 1>> >>)
+CLeaf(c) == CNode(R(c, 1), <<>>, <<>>, <<>>)
+DigitSeq == <<"0", "1", "2", "3", "4", "5", "6", "7", "8", "9">>
+Dec5(k) == <<DigitSeq[1 + Md(k \div 10000, 10)], DigitSeq[1 + Md(k \div 1000, 10)], DigitSeq[1 + Md(k \div 100, 10)],
+             DigitSeq[1 + Md(k \div 10, 10)], DigitSeq[1 + Md(k, 10)]>>
+BigDoc(kind, n) ==
+  CASE kind = "name" -> <<"<">> \o Rep(n, "a") \o <<"/", ">">>
+    [] kind = "value" -> <<"<", "a", " ", "q", "=", DQ>> \o Rep(n, "v") \o <<DQ, "/", ">">>
+    [] kind = "content" -> Open("a") \o Rep(n, "t") \o Close("a")
+    [] kind = "comment" -> Open("a") \o Cmt(Rep(n, "c")) \o El("b") \o Close("a")
+    [] kind = "blank" -> Open("a") \o Rep(n, " ") \o El("b") \o Close("a")
+    [] kind = "attrs" -> <<"<", "a">> \o Concat([k \in 1..n |-> <<" ", "p">> \o Dec5(k) \o <<"=", DQ>> \o Dec5(k) \o <<DQ>>]) \o <<"/", ">">>
+    [] kind = "children" -> Open("a") \o Concat([k \in 1..n |-> El("b")]) \o Close("a")
+    [] kind = "size" -> Open("a") \o Rep(n - 7, "t") \o Close("a")
+    [] kind = "sizepad" -> El("a") \o Rep(n - 4, "\n")
+BigBytes(kind, n) ==
+  CASE kind = "name" -> n + 3 [] kind = "value" -> n + 9 [] kind = "content" -> n + 7 [] kind = "comment" -> n + 18
+    [] kind = "blank" -> n + 11 [] kind = "attrs" -> 15 * n + 4 [] kind = "children" -> 4 * n + 7 [] kind \in {"size", "sizepad"} -> n
+BigC(kind, n) ==
+  CDoc(CASE kind = "name" -> CNode(R("a", n), <<>>, <<>>, <<>>)
+         [] kind = "value" -> CNode(R("a", 1), << <<R("q", 1), R("v", n)>> >>, <<>>, <<>>)
+         [] kind = "content" -> CNode(R("a", 1), <<>>, R("t", n), <<>>)
+         [] kind \in {"comment", "blank"} -> CNode(R("a", 1), <<>>, <<>>, << <<CLeaf("b"), 1>> >>)
+         [] kind = "attrs" -> CNode(R("a", 1), [k \in 1..n |-> <<Rle(<<"p">> \o Dec5(k)), Rle(Dec5(k))>>], <<>>, <<>>)
+         [] kind = "children" -> CNode(R("a", 1), <<>>, <<>>, R(CLeaf("b"), n))
+         [] kind = "size" -> CNode(R("a", 1), <<>>, R("t", n - 7), <<>>)
+         [] kind = "sizepad" -> CLeaf("a"))
+Boundaries == {0, 1, 2, 127, 128, 129, 255, 256, 257, 511, 512, 513, 1023, 1024, 1025, 4095, 4096, 4097, 8191, 8192, 8193,
+               65535, 65536, 65537, 1048575, 1048576, 1048577}
+MinN(kind) == CASE kind = "name" -> 1 [] kind = "size" -> 7 [] kind = "sizepad" -> 4 [] OTHER -> 0
+MaxN(kind) == CASE kind = "attrs" -> 4097 [] kind = "children" -> 65537 [] kind = "name" -> 65537 [] OTHER -> 1048577
+BigKinds == {"name", "value", "content", "comment", "blank", "attrs", "children", "size", "sizepad"}
+SmallNs(kind) == {n \in 0..9 : n >= MinN(kind)}
+BigNs(kind) == SmallNs(kind) \cup {n \in Boundaries : n >= MinN(kind) /\ n <= MaxN(kind)}
+BigLawOk(kind, n) ==
+  LET d == BigDoc(kind, n)
+      p == ParseDoc(d)
+  IN p.ok /\ CTree(p.tree) = BigC(kind, n) /\ Len(d) = BigBytes(kind, n)
+BigCase(kind, n) ==
+  [a |-> "Big", arg |-> [kind |-> kind, n |-> n], cls |-> kind,
+   exp |-> IF n <= 9 THEN [outcome |-> "ok", bytes |-> BigBytes(kind, n), doc |-> Join(BigDoc(kind, n)), ctree |-> BigC(kind, n)]
+           ELSE [outcome |-> "ok", bytes |-> BigBytes(kind, n), ctree |-> BigC(kind, n)]]
+\* chains: NestTree(n) = n nodes named a, each the only child of the one before; its plain rendering is the "closed" form the driver builds
+RECURSIVE NestTree(_)
+NestTree(n) == IF n = 1 THEN Node(<<"a">>, <<>>, <<>>, <<>>) ELSE Node(<<"a">>, <<>>, <<>>, <<NestTree(n - 1)>>)
+NestDoc(n) == Concat([k \in 1..(n - 1) |-> Open("a")]) \o El("a") \o Concat([k \in 1..(n - 1) |-> Close("a")])
+NestLawOk(n) == NestDoc(n) = Render(NestTree(n), Plain) /\ ParseDoc(NestDoc(n)).tree = DocNode(<<NestTree(n)>>) /\ Len(NestDoc(n)) = 7 * n - 3
+NestDepths == {1, 2, 127, 128, 129, 255, 256, 257, 511, 512, 513, 1023, 1024, 1025, 2000}
+NestCases == {[a |-> "Nest", arg |-> [depth |-> n, form |-> "closed"], cls |-> "", exp |-> [outcome |-> "ok", depth |-> n, chain |-> TRUE, bytes |-> 7 * n - 3]] : n \in NestDepths}
+        \cup {[a |-> "Nest", arg |-> [depth |-> n, form |-> "open"], cls |-> "", exp |-> [bytes |-> 3 * n]] : n \in NestDepths}
+BigSlice(file) ==
+  IF (\A kind \in BigKinds : \A n \in SmallNs(kind) : BigLawOk(kind, n)) /\ (\A n \in 1..7 : NestLawOk(n))
+  THEN ndJsonSerialize(file, SetToSeq(UNION {{BigCase(kind, n) : n \in BigNs(kind)} : kind \in BigKinds}
+                                      \cup NestCases \cup {[a |-> "ReadMissing", arg |-> [what |-> "no such file"], cls |-> "", exp |-> [outcomes |-> SetToSeq(SafeOutcomes)]]}))
+       /\ PrintT(<<"xmlgen", "big", "formula documents", Cardinality(UNION {{<<kind, n>> : n \in BigNs(kind)} : kind \in BigKinds})>>)
+  ELSE PrintT(<<"big law fails", {<<kind, n>> \in BigKinds \X (0..9) : n \in SmallNs(kind) /\ ~BigLawOk(kind, n)}, {n \in 1..7 : ~NestLawOk(n)}>>) /\ FALSE
+
+\* ---------------------------------------------------------------------------
+\* family "history": the result of a call is a function of the file's bytes
+\* ---------------------------------------------------------------------------
+PoolSeq == << <<>>,                                                                          \* the empty file
+              El("a"),
+              <<"<", "b", "1", " ", "q", "=", DQ, "v", " ", "w", DQ, ">">> \o Rep(300, "t") \o El("a") \o <<"<", "/", "b", "1", ">">>,
+              <<"<", "a">>,                                                                  \* malformed
+              Rep(300, "x"),                                                                 \* long garbage
+              <<" ", " ", "\n">>,
+              <<"<", "b", "1", ">", "t", "<", "/", "b", "1", ">">>,
+              <<"<", "a", " ", "q", "=", DQ, "x">> >>                                         \* file ends inside a value
+StepExp(d) == LET p == ParseDoc(d) IN IF p.ok THEN [outcome |-> "ok", tree |-> TreeJ(p.tree)] ELSE [outcomes |-> SetToSeq(SafeOutcomes)]
+StepCls(q, i) == IF i = 1 THEN "first"
+                 ELSE IF \E j \in 1..(i - 1) : Len(PoolSeq[q[j]]) > Len(PoolSeq[q[i]]) THEN "after-longer-file" ELSE "after-shorter-or-equal-file"
+SameAs(q, i) == CHOOSE j \in 1..i : q[j] = q[i] /\ \A k \in 1..(j - 1) : q[k] # q[i]          \* first read of the same bytes
+SeqCase(q) == [a |-> "ReadSeq", arg |-> [docs |-> [i \in DOMAIN q |-> Join(PoolSeq[q[i]])]], cls |-> "",
+               exp |-> [steps |-> [i \in DOMAIN q |-> StepExp(PoolSeq[q[i]])], same |-> [i \in DOMAIN q |-> SameAs(q, i)],
+                        cls |-> [i \in DOMAIN q |-> StepCls(q, i)]]]
+ThreadCase(r) ==      \* 4 threads; thread t reads the pool rotated by r + 2 t
+  LET docs(t) == [i \in 1..Len(PoolSeq) |-> PoolSeq[1 + Md(i + r + 2 * t, Len(PoolSeq))]] IN
+  [a |-> "ReadThreads", arg |-> [threads |-> [t \in 1..4 |-> [i \in 1..Len(PoolSeq) |-> Join(docs(t)[i])]], rounds |-> 40], cls |-> "",
+   exp |-> [threads |-> [t \in 1..4 |-> [i \in 1..Len(PoolSeq) |-> StepExp(docs(t)[i])]], distinct |-> 1]]
+HistorySlice(file) ==
+  \E Q \in {UNION {[1..k -> 1..Len(PoolSeq)] : k \in 1..3}} :
+     ndJsonSerialize(file, SetToSeq({SeqCase(q) : q \in Q} \cup {ThreadCase(r) : r \in 0..2}))
+     /\ PrintT(<<"xmlgen", "history", "sequences", Cardinality(Q)>>)
 
 \* ---------------------------------------------------------------------------
 PolicyCase == [a |-> "Policy", arg |-> [what |-> "any file"], cls |-> "", exp |-> [outcomes |-> SetToSeq(SafeOutcomes)]]
@@ -319,6 +492,10 @@ Do(i) ==
        [] sl.fam = "content" -> ContentSlice(sl, file)
        [] sl.fam = "dashes" -> DashSlice(sl, file)
        [] sl.fam = "bytes" -> ByteSlice(sl, file)
+       [] sl.fam = "names" -> NameSlice(sl, file)
+       [] sl.fam = "ctl" -> CtlSlice(file)
+       [] sl.fam = "big" -> BigSlice(file)
+       [] sl.fam = "history" -> HistorySlice(file)
 
 Init == slice \in {i \in DOMAIN SliceSeq : FAMS = "all" \/ SliceSeq[i].fam = FAMS}
 Next == \/ slice > 0 /\ Do(slice) /\ slice' = 0 - slice
